@@ -76,6 +76,17 @@ pub struct KnowledgeGraphSnapshot {
     >,
 }
 
+/// Add session facts to a relation with set semantics: a session fact equal to a tuple that
+/// is already there (a persistent fact, or an earlier session fact) must not appear twice,
+/// otherwise aggregates such as `count` see it as two rows.
+fn extend_as_set(base: &mut Vec<Tuple>, extra: Vec<Tuple>) {
+    for tuple in extra {
+        if !base.contains(&tuple) {
+            base.push(tuple);
+        }
+    }
+}
+
 impl KnowledgeGraphSnapshot {
     /// Create a new snapshot from knowledge graph data
     pub fn new(input_tuples: HashMap<String, Vec<Tuple>>, rules: Vec<Rule>) -> Self {
@@ -333,7 +344,7 @@ impl KnowledgeGraphSnapshot {
             if let Some(extra) = needs_mutation.remove(rel) {
                 // This relation needs session facts: clone and extend
                 let mut cloned = tuples.clone();
-                cloned.extend(extra);
+                extend_as_set(&mut cloned, extra);
                 isolated_tuples.insert(rel.clone(), cloned);
             } else {
                 // No session facts for this relation: share the existing vec
@@ -342,7 +353,9 @@ impl KnowledgeGraphSnapshot {
         }
         // Add relations that only exist in session facts (not in base data)
         for (rel, tuples) in needs_mutation {
-            isolated_tuples.insert(rel, tuples);
+            let mut unique = Vec::with_capacity(tuples.len());
+            extend_as_set(&mut unique, tuples);
+            isolated_tuples.insert(rel, unique);
         }
 
         // Set the isolated tuples on the engine (needed for pipeline)
@@ -393,14 +406,16 @@ impl KnowledgeGraphSnapshot {
         for (rel, tuples) in self.input_tuples.as_ref() {
             if let Some(extra) = needs_mutation.remove(rel) {
                 let mut cloned = tuples.clone();
-                cloned.extend(extra);
+                extend_as_set(&mut cloned, extra);
                 isolated_tuples.insert(rel.clone(), cloned);
             } else {
                 isolated_tuples.insert(rel.clone(), tuples.clone());
             }
         }
         for (rel, tuples) in needs_mutation {
-            isolated_tuples.insert(rel, tuples);
+            let mut unique = Vec::with_capacity(tuples.len());
+            extend_as_set(&mut unique, tuples);
+            isolated_tuples.insert(rel, unique);
         }
 
         let shared = Arc::new(isolated_tuples);
